@@ -48,6 +48,17 @@ Proof.
   destruct (is_mut (w_ns w)); cbn; reflexivity.
 Qed.
 
+(* add_taxa(iterable): the generated loop calls the generated add_taxon for every element, in
+   order, re-examining membership each time (repeated objects inside one batch included) *)
+Theorem gen_add_taxa_l (w : world) (ts : list tid) :
+  py_add_taxa w (VList (map VTaxon ts)) = lift_ns_v w (add_taxa (w_ns w) ts).
+Proof.
+  unfold py_add_taxa. cbn -[py_add_taxon]. revert w.
+  induction ts as [|t r IH]; intros w; cbn -[py_add_taxon]; [unfold lift_ns_v; cbn; f_equal; f_equal; eta|].
+  rewrite gen_add_taxon_l. unfold lift_ns_v at 1. destruct (add_taxon (w_ns w) t) as [n1| |]; cbn -[py_add_taxon]; try reflexivity.
+  rewrite IH. reflexivity.
+Qed.
+
 Definition new_taxon_v (w : world) (l : lbl) : res (world * pyval) :=
   match new_taxon w l with Ok (w', t) => Ok (w', VTaxon t) | Err e => Err e | OutOfFuel => OutOfFuel end.
 
